@@ -66,6 +66,12 @@ func (a *multiClusterTokenReviewAuthenticator) AuthenticateToken(ctx context.Con
 	if err != nil {
 		return nil, false, err
 	}
+	// The cluster this request will be dispatched to was resolved when the request arrived (WithUpstreamInfo).
+	// Server names are mutable: if the host has moved to another cluster in the meantime, that cluster's answer
+	// must not be applied to a request that is served by the first one.
+	if info.UpstreamCluster != nil && info.UpstreamCluster != cluster {
+		return nil, false, fmt.Errorf("host %q no longer belongs to cluster %q", host, info.UpstreamCluster.Cluster)
+	}
 
 	var tokenAuth authenticator.Token
 	if a.tokenFailureCacheTTL == 0 && a.tokenSuccessCacheTTL == 0 {
